@@ -58,6 +58,10 @@ def exec_INF(t):
     if i != '-':
         kw['n_int'] = int(i)
     carrier = mkvals(vs)          # (built outside the try: an error of the harness must never pass for one of the library)
+    if (len(vs) + sum(int(v * 4) % 11 for v in vs)) % 5 == 0:
+        # (content-determined) somewhere else in the program an object was just built from a template given by keyword: that is
+        # that object's business, inference for the next object starts from nothing
+        _ = Fxp(1.5, template=Fxp(None, True, 16, 8))
     try:
         x = Fxp(carrier, **kw)
     except Exception as e:
